@@ -228,6 +228,7 @@ func runC01(r *Run) {
 		}
 		addEval(r, &c, "nested-quantifiers")
 	}
+	c01IfaceListBoundaries(r)
 	// the same logical document in several Go representations must give the same outcome
 	reps := 300
 	if r.Tier == "thorough" {
@@ -377,6 +378,7 @@ func runC09(r *Run) {
 			}
 		}
 	}
+	c09Unmodelled(r)
 	n := 3000
 	if r.Tier == "thorough" {
 		n = 300000
@@ -511,6 +513,7 @@ func runC03(r *Run) {
 			r.Sample(map[string]interface{}{"A": A, "B": B, "outcome_A": oa, "outcome_B": ob, "datum": describe(d)})
 		}
 	}
+	c03QuantifierBodies(r, n)
 }
 
 // ---------- C04 ----------
